@@ -516,6 +516,7 @@ class InstanceDecoder(Encoding):
                         # the end.
                         cur_item[cut_dimension] = \
                             item_size_in_dim - cut_position
+                        current_area -= cut_position * item_size_in_other_dim
                         if _VERIF_EVENTS is not None:
                             _VERIF_EVENTS.append(
                                 (2, sel_i, cut_dimension, cut_position))
